@@ -1,43 +1,115 @@
 #!/usr/bin/env python3
-# tools/mutant.py <seeded dir | patch file> <Cxx> [<Cyy> ...] [--tier quick]
-# Applies a seeded change to /repo, runs the named checks, restores /repo, and prints which checks reported a violation.
-# Used only to evaluate the machinery (DESIGN.md section 13); never part of a registered check.
+# Evaluation of the machinery against seeded changes (DESIGN.md section 13).  Never part of a registered check.
+#   tools/mutant.py confirm <dir with patch.diff + demo.*> <slot>      original: demo passes; patched: tests pass, demo fails
+#   tools/mutant.py check   <dir with patch.diff> <slot> Cxx [Cyy ...] [--tier quick]
+# A slot is a scratch worktree of /repo under /tmp/mslot-<slot> with its own work directory /tmp/mwork-<slot>; the checks run
+# against it through VERIF_REPO / VERIF_WORK / VERIF_EVIDENCE_DIR, so /repo itself and /verif/evidence are never touched.
 import json, os, subprocess, sys, time
 
-def main():
-    args = sys.argv[1:]
-    tier = "quick"
-    if "--tier" in args:
-        i = args.index("--tier"); tier = args[i + 1]; del args[i:i + 2]
-    target, props = args[0], args[1:]
-    patch = os.path.join(target, "patch.diff") if os.path.isdir(target) else target
-    st = subprocess.run(["git", "-C", "/repo", "status", "--porcelain", "--untracked-files=no"], capture_output=True, text=True).stdout.strip()
-    if st:
-        print("refusing: /repo has uncommitted changes:\n" + st); return 2
-    r = subprocess.run(["git", "-C", "/repo", "apply", os.path.abspath(patch)], capture_output=True, text=True)
-    if r.returncode != 0:
-        print("patch does not apply: " + r.stderr); return 2
-    out = {}
+
+def sh(cmd, cwd=None, env=None, timeout=3600):
+    p = subprocess.run(cmd, cwd=cwd, env=env, capture_output=True, text=True, shell=isinstance(cmd, str), timeout=timeout)
+    return p.returncode, p.stdout, p.stderr
+
+
+def slot_dir(slot):
+    d = "/tmp/mslot-%s" % slot
+    if not os.path.isdir(d):
+        rc, o, e = sh(["git", "-C", "/repo", "worktree", "add", "--detach", d, "HEAD"])
+        if rc != 0:
+            raise SystemExit("cannot create worktree: " + e)
+    else:
+        sh(["git", "checkout", "--detach", "-q", subprocess.run(["git", "-C", "/repo", "rev-parse", "HEAD"], capture_output=True, text=True).stdout.strip()], cwd=d)
+    sh(["git", "checkout", "--", "."], cwd=d)
+    sh(["git", "clean", "-fdq", "-e", "target"], cwd=d)
+    return d
+
+
+def find_demo(src):
+    for n in ("demo.sh", "demo.py", "demo.bash"):
+        if os.path.exists(os.path.join(src, n)):
+            return n
+    return None
+
+
+def run_demo(src, d):
+    name = find_demo(src)
+    if not name:
+        return None, "no demo"
+    # demos refer to their own directory as scratch/mutantN relative to the repository root: mirror that layout
+    rel = os.path.join("scratch", os.path.basename(os.path.abspath(src)))
+    dst = os.path.join(d, rel)
+    os.makedirs(os.path.dirname(dst), exist_ok=True)
+    sh(["rm", "-rf", dst])
+    sh(["cp", "-r", os.path.abspath(src), dst])
+    cmd = ["bash", os.path.join(rel, name)] if name.endswith("sh") else ["python3", os.path.join(rel, name)]
     try:
-        for p in props:
-            t0 = time.time()
-            pr = subprocess.run(["/verif/check", p, "--tier", tier], cwd="/verif", capture_output=True, text=True)
-            viol = [l for l in pr.stdout.split("\n") if l.startswith("VIOLATION")]
-            known = [l for l in pr.stdout.split("\n") if l.startswith("KNOWN-FINDING")]
-            first = ""
-            if viol:
-                try:
-                    rp = viol[0].split("replay=")[1].strip()
-                    first = json.load(open(rp)).get("what", "")[:400]
-                except Exception:
-                    pass
-            out[p] = {"exit": pr.returncode, "violations": len(viol), "known_lines": len(known), "wall_s": round(time.time() - t0), "first": first,
-                      "stderr_tail": pr.stderr[-600:] if pr.returncode == 2 else ""}
-            print("%s: exit %d, %d VIOLATION line(s), %d s  %s" % (p, pr.returncode, len(viol), out[p]["wall_s"], first[:300]), flush=True)
-    finally:
-        subprocess.run(["git", "-C", "/repo", "checkout", "--", "."], check=True)
+        rc, o, e = sh(cmd, cwd=d, env=dict(os.environ, CARGO_NET_OFFLINE="true"), timeout=1800)
+    except subprocess.TimeoutExpired:
+        return 124, "timeout"
+    return rc, (o + e)[-1500:]
+
+
+def confirm(src, slot):
+    d = slot_dir(slot)
+    res = {}
+    rc, out = run_demo(src, d)
+    res["demo_on_original"] = rc
+    sh(["git", "checkout", "--", "."], cwd=d)
+    rc, o, e = sh(["git", "apply", os.path.abspath(os.path.join(src, "patch.diff"))], cwd=d)
+    if rc != 0:
+        res["apply"] = e
+        print(json.dumps(res)); return 2
+    rc, o, e = sh("cargo test --offline 2>&1 | grep -E 'test result|FAILED|error(\\[|:)' | head -5", cwd=d)
+    res["tests"] = o.strip()
+    rc, out = run_demo(src, d)
+    res["demo_on_patched"] = rc
+    res["demo_output_tail"] = out[-600:] if isinstance(out, str) else ""
+    sh(["git", "checkout", "--", "."], cwd=d)
+    sh(["git", "clean", "-fdq", "-e", "target"], cwd=d)
+    ok = res["demo_on_original"] == 0 and res["demo_on_patched"] not in (0, None) and "59 passed; 0 failed" in res["tests"]
+    res["confirmed"] = ok
+    print(json.dumps(res, indent=1))
+    return 0 if ok else 1
+
+
+def check(src, slot, props, tier):
+    d = slot_dir(slot)
+    rc, o, e = sh(["git", "apply", os.path.abspath(os.path.join(src, "patch.diff"))], cwd=d)
+    if rc != 0:
+        print("patch does not apply: " + e); return 2
+    work = "/tmp/mwork-%s" % slot
+    env = dict(os.environ, VERIF_REPO=d, VERIF_WORK=work, VERIF_EVIDENCE_DIR=os.path.join(work, "evidence"))
+    out = {}
+    for p in props:
+        t0 = time.time()
+        pr = subprocess.run(["/verif/check", p, "--tier", tier], cwd="/verif", capture_output=True, text=True, env=env)
+        viol = [l for l in pr.stdout.split("\n") if l.startswith("VIOLATION")]
+        first = ""
+        if viol:
+            try:
+                first = json.load(open(viol[0].split("replay=")[1].strip())).get("what", "")[:500]
+            except Exception:
+                pass
+        out[p] = {"exit": pr.returncode, "violations": len(viol), "wall_s": round(time.time() - t0), "first": first,
+                  "stderr_tail": pr.stderr[-800:] if pr.returncode == 2 else ""}
+        print("%s: exit %d, %d VIOLATION line(s), %d s | %s%s" % (p, pr.returncode, len(viol), out[p]["wall_s"], first[:400], out[p]["stderr_tail"][-300:]), flush=True)
+    sh(["git", "checkout", "--", "."], cwd=d)
     print(json.dumps(out))
     return 0
+
+
+def main():
+    a = sys.argv[1:]
+    tier = "quick"
+    if "--tier" in a:
+        i = a.index("--tier"); tier = a[i + 1]; del a[i:i + 2]
+    if a[0] == "confirm":
+        return confirm(a[1], a[2])
+    if a[0] == "check":
+        return check(a[1], a[2], a[3:], tier)
+    print(__doc__); return 2
+
 
 if __name__ == "__main__":
     sys.exit(main())
